@@ -510,4 +510,35 @@ def rule_borrowed_r4(ctx):
     ctx.borrow(rule_thru, {"C01.THRU": "C15.THRU"})
 
 
-RULES = [rule_share, rule_dir, rule_order, rule_off, rule_dim, rule_default, rule_support, rule_borrowed_r4]
+def rule_window(ctx):
+    p = ctx.p
+    ctx.rule("C15.WINDOW", "Throttle.append keeps its accounting window: the window start is set when (and only when) there is none yet, and the window is folded "
+                           "when (and only when) more than reset_rate has elapsed since it started")
+    ap = p.method("Throttle", "append")
+    start_p = ap.args.args[-1].arg
+    inits = [n for n in walk_no_nested(ap) if isinstance(n, ast.Assign) and src(n.targets[0]) == "self._start"]
+    first = [n for n in inits if any(isinstance(t, ast.Compare) and isinstance(t.ops[0], (ast.Is, ast.IsNot)) and src(t.left) == "self._start" for t, pol in all_guards(p, n, ap))]
+    ok = False
+    for n in first:
+        ok = any(((isinstance(t.ops[0], ast.Is) and pol) or (isinstance(t.ops[0], ast.IsNot) and not pol)) for t, pol in all_guards(p, n, ap)
+                 if isinstance(t, ast.Compare) and isinstance(t.ops[0], (ast.Is, ast.IsNot)) and src(t.left) == "self._start")
+    ctx.ob("C15.WINDOW", first[0] if first else ap, "the window start is initialised under `self._start is None`", ok,
+           "Throttle.append does not set the window start exactly when it is None: with a start that is never set the elapsed time is computed from None (TypeError on the first "
+           "counted block), with one that is reset on every block nothing is ever accumulated", construct="window:start init")
+    resets = [n for n in walk_no_nested(ap) if isinstance(n, (ast.AugAssign, ast.Assign)) and src(assign_targets(n)[0]) == "self._sum"
+              and any(pol is not None and isinstance(t, ast.Compare) and "reset_rate" in src(t) for t, pol in all_guards(p, n, ap))]
+    ok = False
+    for n in resets:
+        for t, pol in all_guards(p, n, ap):
+            if isinstance(t, ast.Compare) and len(t.ops) == 1 and "reset_rate" in src(t):
+                t_ = deep_expand(p, t, ap)
+                l_, r_ = t_.left, t_.comparators[0]
+                elapsed_left = "reset_rate" in src(r_)
+                gt = isinstance(t_.ops[0], (ast.Gt, ast.GtE)) if elapsed_left else isinstance(t_.ops[0], (ast.Lt, ast.LtE))
+                ok = bool(pol) == bool(gt)
+    ctx.ob("C15.WINDOW", resets[0] if resets else ap, "the window is folded only when more than reset_rate has elapsed", ok,
+           "Throttle.append folds the window under the opposite of `elapsed > reset_rate` (or without that test): the sum is rebased on every block - or never - and the delay computed "
+           "from it no longer matches the configured rate", construct="window:reset test")
+
+
+RULES = [rule_share, rule_dir, rule_order, rule_off, rule_dim, rule_default, rule_support, rule_borrowed_r4, rule_window]
